@@ -651,6 +651,24 @@ func seamA(rep *ev.Report) {
 		}
 	}
 
+	// ---- P4c: every SNI host name length 1..300 (the longest the DNS allows is 253), SNI first / last / alone ----
+	r.phase = "P4c_sni_length"
+	for n := 1; n <= 300; n++ {
+		b := make([]byte, n)
+		for i := range b {
+			b[i] = 'a'
+			if (i+1)%64 == 0 && i != n-1 {
+				b[i] = '.'
+			}
+		}
+		sni := chello.SNI(string(b))
+		for li, exts := range [][]chello.Ext{append([]chello.Ext{sni}, stdExts(2, 3)...), append(stdExts(2, 3), sni), {sni}} {
+			if r.mine() {
+				r.eval((&chello.Hello{Version: 0x0303, Ciphers: realCiphers, Exts: exts}).Record(), fmt.Sprintf("SNI host name of %d bytes, extension layout %d", n, li))
+			}
+		}
+	}
+
 	// ---- P5: metamorphic closure over a family of base hellos --------------------------------
 	r.phase = "P5_metamorphic_closure"
 	var bases []base
